@@ -451,6 +451,11 @@ func (x *Exec) runFunc(fd *ast.FuncDecl, c *Contract, sc splitCase, first bool) 
 			unbound("ghostbefore", ga.Anchor)
 		}
 	}
+	for _, gc := range c.GhostCalls {
+		if x.anchorHits["call:"+gc.Anchor] == 0 && !hasPrefixIn(stmts, gc.Anchor) {
+			unbound("ghostcall", gc.Anchor)
+		}
+	}
 	if len(exits) == 0 {
 		// function never returns normally under the precondition
 		x.note("no-normal-exit")
@@ -771,6 +776,57 @@ func (x *Exec) stringAxioms() []*Term {
 func (e *Engine) verifyLemma(q string, c *Contract, rep *FuncReport) ([]*Obligation, *FuncReport) {
 	var all []*Obligation
 	cases := casesOf(c)
+	if hasCaseRequires(c) {
+		// the lemma is applied (ghostcall) under its split-variable-free
+		// preconditions only: they must imply that some case applies
+		y := e.newExec(q, c)
+		func() {
+			defer func() {
+				if r := recover(); r != nil {
+					y.fail("engine panic: %v", r)
+				}
+			}()
+			st := y.initState()
+			y.frames = []*fnFrame{{qual: q}}
+			for _, qv := range c.LemmaVars {
+				t := e.typeByName(qv.Type)
+				v := &Value{T: t, L: map[string]*Term{}}
+				for _, l := range y.leavesOf(t) {
+					v.L[l.path] = y.b.Var(join("in."+qv.Name, l.path), l.sort)
+				}
+				y.assumeWellFormed(st, v)
+				st.names[qv.Name] = v
+			}
+			for _, r := range c.Requires {
+				if !clauseUsesFresh(c, r) {
+					y.assume(st, y.evalClause(st, r, token.NoPos))
+				}
+			}
+			var alts []*Term
+			for _, sc := range cases {
+				for _, f := range c.Fresh {
+					t := e.typeByName(f.Type)
+					w, _ := intInfo(t)
+					if cv, ok := sc.vals[f.Name]; ok {
+						st.names[f.Name] = scalarV(t, y.b.Num(cv, y.intSort(w)))
+					}
+				}
+				var cs []*Term
+				for _, r := range c.Requires {
+					if clauseUsesFresh(c, r) {
+						cs = append(cs, y.evalClause(st.clone(), r, token.NoPos))
+					}
+				}
+				alts = append(alts, y.b.And(cs...))
+			}
+			y.oblige(st, "case-cover", "case.cover", y.b.Or(alts...), token.NoPos, nil)
+			y.finishObligations()
+		}()
+		if y.failed != nil {
+			rep.Err = y.failed.Error()
+		}
+		all = append(all, y.obls...)
+	}
 	for _, sc := range cases {
 		x := e.newExec(q, c)
 		x.caseLabel = sc.label
